@@ -289,7 +289,7 @@ def rule_e(ctx):
     ls = m.method(base, "linear_solve")
     flag = [s for s in ast.walk(ls.node) if isinstance(s, ast.Assign) and norm(s.value) in ("not reuse_solver or not hasattr(self, 'linear_solver')", "not (reuse_solver and hasattr(self, 'linear_solver'))")]
     ctx.ob(R, ls.qname, "a solver is set up unless reuse is requested and one exists", len(flag) == 1 and isinstance(flag[0].targets[0], ast.Name),
-           str([norm(s) for s in ast.walk(ls.node) if isinstance(s, ast.Assign) and "reuse_solver" in norm(s.value)][:3]), ls.node)
+           str([norm(s) for s in ast.walk(ls.node) if isinstance(s, ast.Assign) and "reuse_solver" in norm(s.value)][:3]), ls.node, evidence=False)
     dflt = {a.arg: d for a, d in zip(ls.node.args.args[-len(ls.node.args.defaults):], ls.node.args.defaults)}
     ctx.ob(R, ls.qname, "reuse_solver defaults to False", "reuse_solver" in dflt and norm(dflt["reuse_solver"]) == "False", str({k: norm(x) for k, x in dflt.items()}), ls.node)
     for cname in ("WassersteinDistanceNewton", "WassersteinDistanceBregman"):
